@@ -1230,7 +1230,16 @@ class Fetcher:
                     continue
                 res_or_error = self._records[tp]
                 if type(res_or_error) is FetchResult:
-                    records = res_or_error.getall(max_records)
+                    try:
+                        records = res_or_error.getall(max_records)
+                    except Exception:
+                        if drained:
+                            # We already got some messages from another
+                            # partition and moved its position - return them.
+                            # This partition's position did not move, so the
+                            # error will be raised again on next call.
+                            return drained
+                        raise
                     if not res_or_error.has_more():
                         # We processed all messages - request new ones
                         del self._records[tp]
